@@ -75,6 +75,40 @@ class Objects:
         return self.rev.get(h, "?" + h.decode("latin1")[:12])
 
 
+class WideValues:
+    """Object ids chosen for their bytes, not for what they name (no objects exist: no git, no peeling).
+    Model values whose name starts with "mk" contain the byte pattern 00 00 1c (at every offset), or
+    start with 00 1c (which follows the zero byte of an update-index delta)."""
+
+    def __init__(self):
+        import hashlib
+        self.git = False
+        self.ids = {}
+        for off in range(18):
+            raw = bytearray(b"\xab" * 20)
+            raw[off:off + 3] = b"\x00\x00\x1c"
+            self.ids["mk%02d" % off] = bytes(raw).hex().encode()
+        self.ids["mklead001c"] = (b"\x00\x1c" + b"\xcd" * 18).hex().encode()
+        self.ids["mkzeros1c"] = (b"\x00" * 19 + b"\x1c").hex().encode()
+        self.ids["lead1c"] = (b"\x1c" + b"\xcd" * 19).hex().encode()
+        self.ids["tail0000"] = (b"\xcd" * 18 + b"\x00\x00").hex().encode()
+        self.ids["zeros01"] = (b"\x00" * 19 + b"\x01").hex().encode()
+        self.ids["ff"] = (b"\xff" * 20).hex().encode()
+        k = 0
+        while len(self.ids) < 18 + 6 + 1200:          # plain ids without the pattern
+            h = hashlib.sha1(b"c16-%d" % k).digest()
+            k += 1
+            if b"\x00\x00\x1c" in h or h.startswith(b"\x00\x1c"):
+                continue
+            self.ids["p%04d" % (len(self.ids) - 24)] = h.hex().encode()
+        self.peel = {v: v for v in self.ids}
+        self.rev = {h: v for v, h in self.ids.items()}
+        self.objdir = None
+
+    def val(self, h: bytes) -> str:
+        return self.rev.get(h, "?" + h.decode("latin1")[:12])
+
+
 # ------------------------------------------------------------------------------- result of a call
 def run_call(fn):
     """-> (result string, is_oserror).  Results: 'True' 'False' 'None' 'exc:<Class>'."""
@@ -111,10 +145,11 @@ class Backend:
     def __init__(self, objs: Objects, names):
         self.objs = objs
         self.names = list(names)
+        self.probe = None
         self.nstep = 0
 
     # -- calls
-    def call(self, op, n, old, v, t):
+    def call(self, op, n, old, v, t, items=None):
         """Execute one model call; -> (got, is_oserr, form)."""
         c = self.c
         ids = self.objs.ids
@@ -140,6 +175,8 @@ class Backend:
             return (*run_call(lambda: c.set_symbolic_ref(nm(n), nm(t))), "call")
         if op == "PackRefs":
             return (*run_call(lambda: c.pack_refs(all=(v == "all"))), "call")
+        if op == "BatchSet":
+            return (*run_call(lambda: self.batch_set([(nm(x), ids[y]) for (x, y) in items])), "call")
         if op == "GitPack":
             return (*run_call(self.git_pack), "call")
         if op == "Reopen":
@@ -149,12 +186,17 @@ class Backend:
     def reopen(self):
         return None
 
+    def batch_set(self, pairs):
+        """refs[n] = v for every pair, as one unit where the backend has such a thing."""
+        for n, v in pairs:
+            self.c[n] = v
+
     # -- observables through the public API
     def api(self):
         """-> dict: get[n] ('v1' | 'KeyError' | 'SymrefLoop' | 'exc:X'), as_dict, symrefs, contains, peeled."""
         c = self.c
         out = {"get": {}, "contains": {}, "peeled": {}}
-        for n in self.names:
+        for n in (self.probe or self.names):          # per-name reads: every name, or a sample of a large universe
             b = nm(n)
             try:
                 out["get"][n] = self.objs.val(c[b])
@@ -224,15 +266,27 @@ class ReftableBackend(Backend):
         from dulwich.reftable import ReftableRefsContainer
         self.c = ReftableRefsContainer(self.root)
 
+    def batch_set(self, pairs):
+        with self.c.batch_update():
+            for n, v in pairs:
+                self.c[n] = v
+
     def state(self):
-        loose = {}
-        for n in self.names:
-            try:
-                raw = self.c.read_loose_ref(nm(n))
-            except KeyError:
-                loose[n] = ABSENT
+        """Through the public API, in a number of table reads that does not grow with the universe:
+        allkeys() says what exists, get_packed_refs() holds every direct ref, the rest is read singly."""
+        loose = {n: ABSENT for n in self.names}
+        direct = self.c.get_packed_refs()
+        for k in self.c.allkeys():
+            n = unnm(k)
+            if k in direct:
+                loose[n] = ("direct", self.objs.val(direct[k]))
                 continue
-            loose[n] = _entry_from_raw(self.objs, raw) if raw else ABSENT
+            try:
+                raw = self.c.read_loose_ref(k)
+            except KeyError:
+                continue
+            if raw:
+                loose[n] = _entry_from_raw(self.objs, raw)
         return loose, {n: ABSENT for n in self.names}, {}
 
     def close(self):
